@@ -182,6 +182,11 @@ func judge(c *Case) Verdict {
 		v.Classes = append(v.Classes, "model-skip/folded-docker-prefix")
 	case sh.tildeWindows:
 		v.Classes = append(v.Classes, "model-skip/docker-tilde-windows")
+	case merr == nil && err != nil && mayReject(m, sh):
+		// Inputs whose reading is inherently ambiguous (they are exactly the
+		// supersets of the known-finding classes): rejecting them is a
+		// legitimate repair, so a rejection is tolerated.
+		v.Classes = append(v.Classes, "model-tolerated-rejection")
 	case (merr == nil) != (err == nil):
 		if merr == nil {
 			v.Violation = fmt.Sprintf("Parse(%q, %v) rejected (%v) a string the documented grammar reads as %+v", raw, kind, err, *m)
